@@ -75,7 +75,7 @@ EXTRA = {
  "C08": " The edit alphabet includes multi-element appends behind a gap, so that nodes ending in a long repetition are reused whole and re-balanced. Both tiers end with a free-running ThreadSanitizer pass over the same thread bodies (evidence/C08-tsan.json): it covers accesses that bypass the hooked operations, which the controlled scheduler cannot interleave; the verdict on interleavings stays the schedule enumeration.",
  "C09": " UTF-16 is also delivered as raw bytes through the C read callback with every window of 4-9 bytes. Histories that leave included ranges in force before a final parse under an explicit range list.",
  "C11": " All nesting structures of <=8 (thorough 10) arrays and flat arrays of <=7 (9) numbers under multi-capture queries with predicates: the capture stream must be in document order. Under every range the capture stream equals the in-range captures of the matches under that range.",
- "C14": " Family (v): ordered pairs (thorough: triples) of tokens over large Unicode classes in subset/overlap relations. Family (vii): tokens with the extras character inside them.",
+ "C14": " Family (v): ordered pairs (thorough: triples) of tokens over large Unicode classes in subset/overlap relations. Family (vii): tokens with the extras character inside them; family (viii): lex states merged across contexts (one known finding).",
  "C15": " Includes G7 and G8 of C03.",
  "C17": " Two further recognised-name lists leave out one kind of local definition each (shadowing documents in the seeds). The locals query is also used with the reference pattern first; a definition must carry its own highlight.",
  "C18": " The language has a scope whose last token is a reference.",
